@@ -109,7 +109,14 @@ pub fn run(p: &Params, rep: &mut Report) {
                 rep.hist("injected_defect", kind);
                 s
             }
-            _ => gen_grey(&mut rng, p.thorough),
+            8 => gen_grey(&mut rng, p.thorough),
+            _ => {
+                if i % 20 == 9 {
+                    gen_superfluous_default(&mut rng)
+                } else {
+                    gen_grey(&mut rng, p.thorough)
+                }
+            }
         };
         let seed = rng.next();
         let text = spec.to_text();
